@@ -93,13 +93,17 @@ Definition e_range (s : estore) (key rend : bytes) : list kv :=
    revisions only through comparisons, so any strictly increasing choice is etcd up to a monotone
    renaming (Proofs/EtcdRename.v). *)
 Record estate := mkE {
-  e_rev : Z;
+  e_rev : Z;                      (* revision of the last write *)
+  e_now : Z;                      (* logical clock: the largest revision handed out so far (>= e_rev); revisions
+                                     in (e_rev, e_now] name the same store as e_rev — under the renaming they are
+                                     etcd's current revision *)
   e_cur : estore;
   e_hist : list (Z * estore);     (* newest first: the store as of each writing revision *)
   e_events : list wevent          (* oldest first *)
 }.
 
-Definition e_init (base : Z) : estate := mkE base [] [] [].
+Definition e_init (base : Z) : estate := mkE base base [] [] [].
+Definition e_tick (s : estate) (r : Z) : estate := mkE (e_rev s) (Z.max (e_now s) r) (e_cur s) (e_hist s) (e_events s).
 
 Definition union_mod (u : cunion) : Z := match u with UMod z => z | _ => 0 end.
 Definition union_create (u : cunion) : Z := match u with UCreate z => z | _ => 0 end.
@@ -141,11 +145,12 @@ Fixpoint hist_at (h : list (Z * estore)) (rev : Z) : estore :=
   | (r, s) :: h' => if r <=? rev then s else hist_at h' rev
   end.
 
-(* the store a range at [rev] reads: <= 0 = current; above the current revision = error *)
+(* the store a range at [rev] reads: <= 0 = current ([cur]: inside a transaction, its working
+   store); above the clock = error (ErrFutureRev); otherwise the store as of that revision *)
 Definition store_at (s : estate) (cur : estore) (rev : Z) : option estore :=
   if rev <=? 0 then Some cur
-  else if e_rev s <? rev then None
-  else if rev =? e_rev s then Some cur
+  else if e_now s <? rev then None
+  else if e_rev s <=? rev then Some (e_cur s)
   else Some (hist_at (e_hist s) rev).
 
 Definition clear_val (x : kv) : kv := mkKv (k_key x) [] (k_create x) (k_mod x) (k_ver x) (k_lease x).
@@ -281,8 +286,8 @@ Definition etcd_txn (s : estate) (nr : Z) (t : txn_req) : estate * txn_resp :=
     | None => (s, TErr)
     | Some (w, rs) =>
         if w_wrote w then
-          (mkE nr (w_store w) ((nr, w_store w) :: e_hist s) (e_events s ++ w_events w), TOk nr b rs)
-        else (s, TOk (e_rev s) b rs)
+          (mkE nr (Z.max (e_now s) nr) (w_store w) ((nr, w_store w) :: e_hist s) (e_events s ++ w_events w), TOk nr b rs)
+        else (e_tick s nr, TOk (e_rev s) b rs)
     end.
 
 Definition etcd_range (s : estate) (r : range_req) : range_resp :=
